@@ -1,6 +1,6 @@
-CONSTANTS ClearInParent = TRUE MaxDepth = 3 MaxStop = 40 defaultInitValue = 0
+CONSTANTS ClearInParent = TRUE MaxDepth = 3 MaxStop = 45 defaultInitValue = 0
 CONSTANT Values <- MCValues
-CONSTANT InnerValues <- MCInner3
+CONSTANT InnerValues <- MCInner0
 SPECIFICATION Spec
 INVARIANTS PVIsPath IterationSound NoWorkAfterStop StopSafe
 CHECK_DEADLOCK FALSE
